@@ -111,9 +111,9 @@ def find_at_depth0(mask: str, start: int, chars: str, end: int = None) -> int:
     end = len(mask) if end is None else end
     for j in range(start, end):
         ch = mask[j]
+        if d == 0 and ch in chars: return j
         if ch in '([': d += 1
         elif ch in ')]': d -= 1
-        elif d == 0 and ch in chars: return j
     return -1
 
 def line_start(s: str, i: int) -> int:
@@ -159,8 +159,15 @@ def find_in_range(src, mask, lo, hi, seg):
     """locate item described by seg within [lo,hi) at brace depth 0 relative to lo.
        returns (item_start, item_end, body_open or -1) — item_start at keyword line start (incl. qualifiers)."""
     seg = seg.strip()
-    kind, _, name = seg.partition(' ')
-    name = name.strip()
+    nth = None
+    m_nth = re.match(r'(.*)#(\d+)$', seg)
+    if m_nth:
+        seg = m_nth.group(1).strip(); nth = int(m_nth.group(2))
+    if seg.startswith('impl'):
+        kind, name = 'impl', seg[4:].strip()
+    else:
+        kind, _, name = seg.partition(' ')
+        name = name.strip()
     cands = []
     if kind == 'impl':
         for m in re.finditer(r'\bimpl\b', mask[lo:hi]):
@@ -187,6 +194,9 @@ def find_in_range(src, mask, lo, hi, seg):
         if depth_at(mask, lo, p) != 0: continue
         # `const fn name` must not match `const name`
         cands.append(p)
+    if nth is not None:
+        if nth < 1 or nth > len(cands): raise ExtractError(f"item '{seg}#{nth}': only {len(cands)} matches")
+        cands = [cands[nth - 1]]
     if len(cands) != 1:
         raise ExtractError(f"item '{seg}': {len(cands)} matches")
     p = cands[0]
@@ -231,7 +241,7 @@ def leading_attr_lines(src, item_start):
             break
     return pos
 
-def filter_attrs(block: str, keep_all=False):
+def filter_attrs(block: str, keep_all=False, extra_drop=()):
     """R0: drop doc comments, lints; filter derives."""
     out = []
     log = []
@@ -247,7 +257,7 @@ def filter_attrs(block: str, keep_all=False):
             m = re.match(r'#\[derive\((.*)\)\]$', st)
             if m:
                 names = [x.strip() for x in m.group(1).split(',') if x.strip()]
-                kept = [x for x in names if x not in DROP_DERIVES]
+                kept = [x for x in names if x not in DROP_DERIVES and x not in extra_drop]
                 if kept != names:
                     log.append(f"R0 derive {names} -> {kept}")
                 if kept:
@@ -531,17 +541,29 @@ class Unit:
 
 def assemble(template_path, repo_root, verif_root):
     u = Unit()
-    tlines = open(template_path).read().split('\n')
+    # expand includes first: every template line keeps (file, line) as its origin
+    tl_origin = [None]          # 1-based: index -> (relative file, line)
+    tlines = []
+    includes = []
+    def expand(path, depth=0):
+        if depth > 8: raise ExtractError("include depth")
+        rel = os.path.relpath(path, verif_root)
+        for k, ln in enumerate(open(path).read().split('\n')):
+            st = ln.strip()
+            if st.startswith('//@ include '):
+                ip = os.path.join(verif_root, st[12:].strip())
+                if not os.path.exists(ip): raise ExtractError(f"include {st[12:].strip()} not found")
+                includes.append(st[12:].strip())
+                expand(ip, depth + 1)
+            else:
+                tlines.append(ln); tl_origin.append((rel, k + 1))
+    expand(template_path)
     out = Txt('', [])
     files = {}       # file -> (src, mask)
     file_ids = []    # index -> file
-    # origin encoding in out.o: tuple-free ints are awkward with several files; use parallel list of (fid)
-    out_f = []       # parallel: file id (or -1 template, -2 include)
+    out_f = []       # parallel: file id (or -1 template)
     def emit_tmpl(text, tline):
         out.s += text; out.o.extend([-tline] * len(text)); out_f.extend([-1] * len(text))
-    def emit_inc(text, incid):
-        out.s += text; out.o.extend([0] * len(text)); out_f.extend([-2 - incid] * len(text))
-    includes = []
     i = 0
     n = len(tlines)
     while i < n:
@@ -559,11 +581,6 @@ def assemble(template_path, repo_root, verif_root):
         elif word == 'canary':
             # //@ canary <fn> "old text" => "new text"   (a mutation of the TEMPLATE contract that must make verification fail)
             u.canaries.append((rest.strip(), i + 1))
-        elif word == 'include':
-            p = os.path.join(verif_root, rest.strip())
-            if not os.path.exists(p): raise ExtractError(f"include {rest} not found")
-            includes.append(rest.strip())
-            emit_inc(open(p).read().rstrip('\n') + '\n', len(includes) - 1)
         elif word == 'item':
             opts = parse_kv(rest)
             tline0 = i + 1
@@ -611,7 +628,7 @@ def assemble(template_path, repo_root, verif_root):
                         kv = parse_kv(r2[p:])
                         cur = Sub('sub', (rule, rx, new, int(kv.get('count', 1))), i + 1); subs.append(cur); cur = None
                     else:
-                        raise ExtractError(f"{template_path}:{i+1}: unknown item directive '{w2}'")
+                        raise ExtractError(f"{tl_origin[i+1]}: unknown item directive '{w2}'")
                 else:
                     if cur is None:
                         if s2: raise ExtractError(f"{template_path}:{i+1}: text outside sub-directive")
@@ -635,7 +652,7 @@ def assemble(template_path, repo_root, verif_root):
             opts['_kind'] = kind
             # leading attributes
             ablock_start = leading_attr_lines(src, a)
-            attrs, alog = filter_attrs(src[ablock_start:a], keep_all=bool(opts.get('keepattrs')))
+            attrs, alog = filter_attrs(src[ablock_start:a], keep_all=bool(opts.get('keepattrs')), extra_drop=tuple(x.strip() for x in opts.get('dropderive', '').split(',') if x.strip()))
             for x in alog: u.log.append({'rule': 'R0', 'item': label, 'note': x})
             t = Txt.from_repo(src, a, b)
             apply_vis(t, opts.get('vis'), label, u.log)
@@ -686,9 +703,8 @@ def assemble(template_path, repo_root, verif_root):
                 lno = bisect.bisect_right(line_offsets[f], out.o[k])
                 linemap.append({'src': 'repo', 'file': f, 'line': lno})
             elif fid == -1:
-                linemap.append({'src': 'tmpl', 'file': os.path.relpath(template_path, verif_root), 'line': -out.o[k]})
-            else:
-                linemap.append({'src': 'include', 'file': includes[-2 - fid]})
+                of, ol = tl_origin[-out.o[k]]
+                linemap.append({'src': 'tmpl', 'file': of, 'line': ol})
         pos = end + 1
     u.linemap = linemap
     return u
